@@ -24,8 +24,12 @@ Subset (everything else raises Untranslatable; nothing is special-cased by funct
     np.maximum, np.searchsorted / a.searchsorted (side=), np.concatenate, np.zeros, np.zeros_like, np.ones_like,
     a.argsort(), a.min(), a.max(), a.take(idx), np.where(mask)[0], np.array_equal, np.arange(lo, hi), builtin min/max/abs,
     hasattr(x, '__len__'), other functions / methods / properties translated in the same file (`callname`), and
-    declared externals (`vexternals`: become function parameters; an argument declared 's*' may be an array, the external
-    is then mapped over it);
+    declared externals (`vexternals`: become function parameters, one per calling form — `'np.histogram'`,
+    `'np.histogram(weights)'`: the keyword arguments used, sorted, follow the positional ones; an argument declared 's*'
+    may be an array, the external is then mapped over it; an external may return a function value `('fn', (args), ret)`
+    that a local variable holds and the code calls), `slice(None)` as a value that is overwritten before use, methods
+    listed in `lift_methods` (`.reshape(-1, ng)`: they only re-arrange the lifted axes) are dropped, `rows.shape[1]` is
+    the declared Nat parameter `rows_ncols`;
   * statements: docstring, pass, import, logging calls, `x = e`, `x op= e`, tuple unpacking of a tuple value,
     `self.x = e` (assigned attributes are local state; a spec with `state=[…]` returns the final values of these
     attributes: that is how `__init__` and other mutating methods are described), stores `a[i] = e`, `a[i] op= e`,
@@ -53,6 +57,10 @@ def is_lit(t):
     return isinstance(t, tuple) and t[0] == 'lit'
 
 
+def is_fn(t):
+    return isinstance(t, tuple) and t[0] == 'fn'
+
+
 def simple(txt):
     return re.fullmatch(r"[\w.']+", txt) is not None
 
@@ -77,6 +85,10 @@ class VFn(Fn):
             return m[k]
         if is_lit(k):
             return 'Nat'
+        if is_fn(k):                                       # ('fn', (argument types), result type): a function value
+            return '(' + ' → '.join(self.lean_ty(x) for x in list(k[1]) + [k[2]]) + ')'
+        if k == 'fullslice':
+            return 'Unit'
         return super().lean_ty(k)
 
     def default(self, ty, node=None):
@@ -317,7 +329,9 @@ class VFn(Fn):
         argnodes = list(node.args) + [k.value for k in sorted(node.keywords, key=lambda k: k.arg)]
         if len(argnodes) != len(d['args']):
             self.fail(node, 'external arity')
-        tys = [a.rstrip('*') for a in d['args'] if a != 'skip']
+        star = lambda a: isinstance(a, str) and a.endswith('*')
+        base = lambda a: a[:-1] if star(a) else a
+        tys = [base(a) for a in d['args'] if a != 'skip']
         self.add_param(d['lean'], ' → '.join(self.lean_ty(t) if ' ' not in self.lean_ty(t) else '(%s)' % self.lean_ty(t)
                                                for t in tys + [d['ret']]))
         args = []
@@ -326,13 +340,13 @@ class VFn(Fn):
             if k == 'skip':
                 continue
             res = self.tx(a, env)
-            if k.endswith('*') and res[1] == OF_ELEM.get(k[:-1]):
+            if star(k) and res[1] == OF_ELEM.get(base(k)):
                 if mapped is not None:
                     self.fail(node, 'external mapped over two arrays')
                 mapped = res[0]
                 args.append('x__')
             else:
-                args.append(self.co(res, k.rstrip('*'), a))
+                args.append(self.co(res, base(k), a))
         call = '(%s %s)' % (d['lean'], ' '.join(args))
         if mapped is not None:
             if d['ret'] not in OF_ELEM:
@@ -390,6 +404,17 @@ class VFn(Fn):
         if full in self.known and not self.known[full].get('prop'):
             return self.call_known(full, node.args, node, env, node.keywords)
         A = node.args
+        if isinstance(node.func, ast.Name) and is_fn(env.get(full)) and not node.keywords:
+            fty = env[full]                               # a local that holds a function returned by an external
+            if len(A) != len(fty[1]):
+                self.fail(node, 'call of a function value with the wrong number of arguments')
+            return '(%s %s)' % (self.var(full), ' '.join(self.co(self.tx(a, env), t, a) for a, t in zip(A, fty[1]))), fty[2]
+        if full == 'slice' and len(A) == 1 and not node.keywords and isinstance(A[0], ast.Constant) and A[0].value is None:
+            return '()', 'fullslice'                      # `slice(None)`: only as a value that is not used as an index here
+        if isinstance(node.func, ast.Attribute) and node.func.attr in self.spec.get('lift_methods', ()):
+            # a method that only re-arranges the lifted axes (`.reshape(-1, ng)` of a k-table column): the 1-D row the
+            # model describes is unchanged
+            return self.tx(node.func.value, env)
         if full == 'len' and len(A) == 1 and not node.keywords:
             if isinstance(A[0], ast.Attribute) and A[0].attr == 'shape':
                 n = len(self.shape(A[0], env))
@@ -519,8 +544,8 @@ class VFn(Fn):
             k = self.kind_of_name(node.id, env)
             if k is None:
                 self.fail(node, 'unknown name (declare it in params/consts)')
-            if k == 'none':
-                return '()', 'none'
+            if k in ('none', 'fullslice'):
+                return '()', k
             if is_lit(k):
                 return str(k[1]), k
             if k == 'skip':
@@ -767,7 +792,7 @@ class VFn(Fn):
         for i, n in enumerate(names):
             ty = env[n]
             tys.append(ty)
-            res = (str(ty[1]) if is_lit(ty) else ('()' if ty == 'none' else self.key_name(n)), ty)
+            res = (str(ty[1]) if is_lit(ty) else ('()' if ty in ('none', 'fullslice') else self.key_name(n)), ty)
             txts.append(self.co(res, want[i]) if want else res[0])
         if rec is not None:
             rec.append(tys)
@@ -844,7 +869,7 @@ class VFn(Fn):
         if is_lit(ty):
             env[key] = ty
             return ''
-        if ty == 'none':
+        if ty in ('none', 'fullslice'):
             env[key] = ty
             return ''
         env[key] = ty
